@@ -217,7 +217,7 @@ with p_term (fuel : nat) (s : str) : pres (pair str * str) :=
     end
   end.
 
-Definition parse_fuel (s : str) : nat := 2 * length s + 6.
+Definition parse_fuel (s : str) : nat := 4 * length s + 8.
 
 (** calculation = SOI ~ expr ~ EOI; the result is the list of children of the
     outer [expr] pair ([calc.next().unwrap().into_inner()]) *)
@@ -232,8 +232,6 @@ Definition parse_calc (s : str) : pres (list (pair str)) :=
 (** * The Pratt parser of pest 2.8.0 *)
 
 Inductive site :=
-| SLit          (* parse::<i64>().unwrap() on an Err *)
-| SPow          (* multiplication overflow inside i64::pow with overflow checks on *)
 | SStruct.      (* the panics of nud / led / lbp on an ill-formed pair sequence, unreachable!() *)
 
 Inductive res (A : Type) := Ok (a : A) | Panic (s : site) | OutOfFuel.
@@ -377,118 +375,77 @@ Definition parse_i64 (s : str) : option Z :=
          end
   end.
 
-(** one multiplication inside i64::pow: panics on overflow when the crate is
-    compiled with overflow checks (debug profile), wraps otherwise *)
-Definition mul_chk (checks : bool) (a b : Z) : res Z :=
-  let p := a * b in
-  if checks && negb (in_i64 p) then Panic SPow else Ok (wrap64 p).
-
-(** the loop of [i64::pow] for a non-zero exponent that is not a compile-time constant *)
-Fixpoint pow_loop (checks : bool) (fuel : nat) (exp base acc : Z) : res Z :=
+(** [wrapping_pow(base, exp: u64)]: square and multiply with wrapping_mul; the
+    loop runs while exp > 0 (at most 64 times) *)
+Fixpoint wpow_loop (fuel : nat) (base exp acc : Z) : res Z :=
   match fuel with
   | O => OutOfFuel
   | S f =>
-    if Z.odd exp then
-      bind (mul_chk checks acc base) (fun acc' =>
-        if exp =? 1 then Ok acc'
-        else bind (mul_chk checks base base) (fun base' => pow_loop checks f (exp / 2) base' acc'))
-    else
-      bind (mul_chk checks base base) (fun base' => pow_loop checks f (exp / 2) base' acc)
+    if 0 <? exp then
+      let acc' := if Z.odd exp then wrap64 (acc * base) else acc in
+      wpow_loop f (wrap64 (base * base)) (exp / 2) acc'
+    else Ok acc
   end.
 
-Definition pow_i64 (checks : bool) (lhs : Z) (exp : Z) : res Z :=
-  if exp =? 0 then Ok 1 else pow_loop checks 33 exp lhs 1.
+Definition wrapping_pow (base exp : Z) : res Z := wpow_loop 65 base exp 1.
 
-(** the closure given to map_infix *)
-Definition int_infix (checks : bool) (lhs : Z) (o : op) (rhs : Z) : res Z :=
-  match o with
-  | Add => Ok (wrap64 (lhs + rhs))
-  | Sub => Ok (wrap64 (lhs - rhs))
-  | Mul => Ok (wrap64 (lhs * rhs))
-  | Div =>
-    if rhs =? 0 then
-      (* (lhs as f64 / 0.0) as i64 : inf, -inf or NaN, cast saturating *)
-      Ok (if 0 <? lhs then i64_max else if lhs <? 0 then i64_min else 0)
-    else Ok (wrap64 (Z.quot lhs rhs))
-  | Pow => pow_i64 checks lhs (rhs mod 2 ^ 32)         (* rhs as u32 *)
-  end.
+(** the value type of the closures: [Result<i64, &'static str>] *)
+Inductive diag :=
+| DRange       (* number out of range *)
+| DNegExp.     (* negative exponent *)
+Inductive ires := IVal (z : Z) | IDiag (d : diag).
 
-Definition int_prim (s : str) : res Z :=
-  match parse_i64 s with Some z => Ok z | None => Panic SLit end.
-
-Definition eval_int (checks : bool) (fuel : nat) (ps : list (pair str)) : res Z :=
-  pratt prec_of is_left int_prim (int_infix checks) fuel ps.
-
-(* ------------------------------------------------------------------ *)
-(** * The classes of expression trees on which integer evaluation is known to
-      crash or to leave wrap-around arithmetic (decidable; used by Known_C19) *)
-
-Inductive kclass :=
-| KLit        (* a literal that [parse::<i64>] rejects: out of range, or with an exponent part *)
-| KPowNeg     (* an exponent below zero: [as u32] turns it into a huge exponent *)
-| KPowTrunc   (* an exponent of 2^32 or more: [as u32] drops the high bits *)
-| KPowOvf.    (* the exact power is outside i64: panics when overflow checks are on *)
-
-(** the value the release arithmetic gives (total; 0 under an unreadable literal) *)
-Fixpoint tv (t : tree str) : Z :=
-  match t with
-  | Leaf s => match parse_i64 s with Some z => z | None => 0 end
-  | Node o a b => match int_infix false (tv a) o (tv b) with Ok v => v | _ => 0 end
-  end.
-
-(** is a^b inside i64, for 0 <= b (decided without computing huge powers) *)
-Definition pow_in_range (a b : Z) : bool :=
-  if Z.abs a <=? 1 then true
-  else if 64 <=? b then false
-  else in_i64 (a ^ b).
-
-Fixpoint classes (checks : bool) (t : tree str) : list kclass :=
-  match t with
-  | Leaf s => match parse_i64 s with Some _ => [] | None => [KLit] end
-  | Node o a b =>
-    classes checks a ++ classes checks b ++
-    match o with
-    | Pow =>
-      if tv b <? 0 then [KPowNeg]
-      else if 2 ^ 32 <=? tv b then [KPowTrunc]
-      else if checks && negb (pow_in_range (tv a) (tv b)) then [KPowOvf]
-      else []
-    | _ => []
+(** the closure given to map_infix: [(lhs?, rhs?)] reports the left error first *)
+Definition int_infix (lhs : ires) (o : op) (rhs : ires) : res ires :=
+  match lhs with
+  | IDiag d => Ok (IDiag d)
+  | IVal x =>
+    match rhs with
+    | IDiag d => Ok (IDiag d)
+    | IVal y =>
+      match o with
+      | Add => Ok (IVal (wrap64 (x + y)))
+      | Sub => Ok (IVal (wrap64 (x - y)))
+      | Mul => Ok (IVal (wrap64 (x * y)))
+      | Div =>
+        if y =? 0 then
+          (* (lhs as f64 / 0.0) as i64 : inf, -inf or NaN, cast saturating *)
+          Ok (IVal (if 0 <? x then i64_max else if x <? 0 then i64_min else 0))
+        else Ok (IVal (wrap64 (Z.quot x y)))
+      | Pow =>
+        if y <? 0 then Ok (IDiag DNegExp)
+        else bind (wrapping_pow x y) (fun v => Ok (IVal v))       (* rhs as u64 *)
+      end
     end
   end.
 
-(** the classes of a line (empty in float mode and for lines that are not parsed) *)
-Definition line_classes (checks : bool) (line : str) : list kclass :=
-  match parse_calc line with
-  | POk ps =>
-    if existsb (fun c => (c =? 46)%N) line then []
-    else match pratt_tree (2 * tot ps + 1) ps with
-         | Ok t => classes checks t
-         | _ => []
-         end
-  | _ => []
-  end.
+(** the closure given to map_primary, for a num: parse::<i64>().map_err(..) *)
+Definition int_prim (s : str) : res ires :=
+  Ok (match parse_i64 s with Some z => IVal z | None => IDiag DRange end).
+
+Definition eval_int (fuel : nat) (ps : list (pair str)) : res ires :=
+  pratt prec_of is_left int_prim int_infix fuel ps.
 
 (* ------------------------------------------------------------------ *)
 (** * run_calculator *)
 
 Inductive calc_result :=
 | RSyntax                                (* Err("syntax error") *)
-| RInt (r : res Z)                       (* Ok(format!(eval_int)) or a panic *)
+| RInt (r : res ires)                    (* eval_int(expr).map(format) : a value or a diagnostic *)
 | RFloat (r : res (tree str))            (* float mode: the tree eval_float folds; values not modelled *)
 | RFuel.
 
 Definition has_dot (s : str) : bool := existsb (fun c => (c =? 46)%N) s.
 
-Definition run_calculator (checks : bool) (line : str) : calc_result :=
+Definition run_calculator (line : str) : calc_result :=
   match parse_calc line with
   | PFuel => RFuel
   | PFail => RSyntax
   | POk ps =>
     if has_dot line then RFloat (pratt_tree (2 * tot ps + 1) ps)
-    else RInt (eval_int checks (2 * tot ps + 1) ps)
+    else RInt (eval_int (2 * tot ps + 1) ps)
   end.
 
 (** [try_run_calculator]: [None] = not an arithmetic line *)
-Definition try_run_calculator (checks : bool) (line : str) : option calc_result :=
-  if is_arithmetic line then Some (run_calculator checks line) else None.
+Definition try_run_calculator (line : str) : option calc_result :=
+  if is_arithmetic line then Some (run_calculator line) else None.
